@@ -814,6 +814,7 @@ func (fr *Frame) selectStmt(x *ssa.Select, st *State, reach string) Val {
 	} else {
 		c.smt.assume(and(app("<=", "-1", idx), app("<", idx, fmt.Sprint(n))), "")
 	}
+	fr.selectSplits[x.Block()] = selectSplit{idx: idx, n: n, blocking: x.Blocking}
 	tup := x.Type().(*types.Tuple)
 	vals := []Val{{T: types.Typ[types.Int], Term: idx}, {T: types.Typ[types.Bool], Term: c.smt.declareFresh("sel.ok", "Bool")}}
 	// recvOk is looked at only by `case v, ok := <-ch`. A select none of whose cases asks for ok treats whatever it
